@@ -13,6 +13,7 @@
 // must return EmptyInput.
 #pragma once
 #include <ArduinoJson.h>
+#include <limits>
 
 #include <istream>
 #include <streambuf>
@@ -107,12 +108,14 @@ struct ArduinoStub : public Stream {
 #endif
 
 // "customskip": the byte-wise custom reader with a filter that discards everything (skip routines / skipBytes)
-static const char* kReaders[] = {"istream", "istreamblk", "custom", "customblk", "customskip", "arduino"};
+// "istreamskip" / "arduinoskip": the same discard-all filter on the 3-byte-window istream and on the Arduino Stream stub
+static const char* kReaders[] = {"istream", "istreamblk", "custom", "customblk", "customskip", "istreamskip", "arduino", "arduinoskip"};
 #if ARDUINOJSON_ENABLE_ARDUINO_STREAM
-static const int kNumReaders = 6;
+static const int kNumReaders = 8;
 #else
-static const int kNumReaders = 5;
+static const int kNumReaders = 6;
 #endif
+inline bool isSkipReader(int r) { return r == 4 || r == 5 || r == 7; }
 
 // ------------------------------------------------------------------------------------------ alphabets
 struct Doc {
@@ -123,6 +126,7 @@ struct Doc {
   std::string obs;      // obsModel(value), cached
   bool basic = false;   // MessagePack: the minimal or the all-maximal encoding of its value
   bool extended = false;  // larger document: only in sequences of <= 2 (thorough) / 1 (quick)
+  bool skipOnly = false;  // too large to be stored (or just large): only through the readers with the discard-all filter
   bool byHand = false;    // outside RFC 8259 (ArduinoJson dialect): no refjson cross-check
 };
 
@@ -179,14 +183,30 @@ inline std::vector<Doc> jsonDocs() {
     D.back().name = "0{61}42";
     D.back().byHand = true;
   }
+#if ARDUINOJSON_ENABLE_NAN
+  add("NaN", MValue::f64(std::numeric_limits<double>::quiet_NaN()), true);
+  D.back().byHand = true;
+#endif
+#if ARDUINOJSON_ENABLE_INFINITY
+  add("Infinity", MValue::f64(std::numeric_limits<double>::infinity()), true);
+  D.back().byHand = true;
+  add("-Infinity", MValue::f64(-std::numeric_limits<double>::infinity()), true);
+  D.back().byHand = true;
+#endif
   for (size_t i = base; i < D.size(); i++) D[i].extended = true;
   for (auto& d : D) if (d.bytes[0] == '\'') d.byHand = true;
   return D;
 }
 
 struct Sep { const char* name; const char* bytes; };
+#if ARDUINOJSON_ENABLE_COMMENTS
+// with comments enabled a comment is whitespace in front of a document (it starts with a space here, so that it may follow a number)
+static const Sep kSeps[] = {{"e", ""}, {"sp", " "}, {"lf", "\n"}, {"crlf", "\r\n"}, {"tab2", "\t  "}, {"block", " /*c*/"}, {"line", " //c\n"}};
+static const int kNumSeps = 7;
+#else
 static const Sep kSeps[] = {{"e", ""}, {"sp", " "}, {"lf", "\n"}, {"crlf", "\r\n"}, {"tab2", "\t  "}};
 static const int kNumSeps = 5;
+#endif
 
 inline std::vector<std::string> jsonSuffixes() { return {"", "x", "]", "\"", "1", std::string(1, '\0')}; }
 inline std::vector<std::string> msgpackSuffixes() { return {"", "\xc1", "\x91", "\xd9", std::string(1, '\0')}; }
@@ -225,11 +245,31 @@ inline std::vector<Doc> msgpackDocs(int nonMinimal) {
     vals.push_back(MValue::f32(2.5f));
     vals.push_back(MValue::raw(refmp::makeExt(1, std::string(3, 'e'))));  // ext8
     vals.push_back(MValue::raw(refmp::makeBin(std::string(300, 'b'))));  // bin16
+    // map keys on both sides of the fixstr / str8 / str16 boundaries
+    for (size_t kl : std::vector<size_t>{15, 16, 31, 32, 255, 256}) {
+      MValue m = MValue::object();
+      m.o.emplace_back(std::string(kl, 'k'), MValue::integer(21));
+      vals.push_back(m);
+    }
+    for (size_t n : std::vector<size_t>{255, 256, 4095, 4096, 4097}) vals.push_back(MValue::raw(refmp::makeBin(std::string(n, 'p'))));
+  }
+  const size_t storableVals = vals.size();
+  {  // skipped only: payloads around the 16-bit boundary and a long array
+    for (size_t n : std::vector<size_t>{65535, 65536, 65537}) {
+      MValue m = MValue::object();
+      m.o.emplace_back("blob", MValue::raw(refmp::makeBin(std::string(n, 'q'))));
+      m.o.emplace_back("n", MValue::integer(7));
+      vals.push_back(m);
+    }
+    MValue many = MValue::array();
+    many.a.assign(70000, MValue::null());
+    vals.push_back(many);
   }
   std::vector<Doc> D;
   std::set<std::string> seen;
   size_t vi = 0;
   for (auto& v : vals) {
+    const bool skipOnly = vi >= storableVals;
     const bool ext = vi++ >= baseVals;
     const size_t first = D.size();
     refmp::encodings(v, nonMinimal, [&](const std::string& bytes, const std::string&) {
@@ -244,6 +284,7 @@ inline std::vector<Doc> msgpackDocs(int nonMinimal) {
     });
     for (size_t i = first; i < D.size(); i++) {
       D[i].extended = ext;
+      D[i].skipOnly = skipOnly;
       if (D[i].bytes.size() > 24) D[i].name = hex(D[i].bytes.substr(0, 8)) + "..(" + std::to_string(D[i].bytes.size()) + ")";
     }
   }
@@ -304,10 +345,16 @@ inline std::vector<Answer> execReader(const std::string& stream, bool msgpack, i
       CustomReader rd(stream, reader == 3);
       return exec(msgpack, ncalls, rd, [&] { return rd.position(); }, reader == 4, calls);
     }
-#if ARDUINOJSON_ENABLE_ARDUINO_STREAM
     case 5: {
+      WindowBuf buf(stream, 3);
+      std::istream is(&buf);
+      return exec(msgpack, ncalls, is, [&] { return buf.position(); }, true, calls);
+    }
+#if ARDUINOJSON_ENABLE_ARDUINO_STREAM
+    case 6:
+    case 7: {
       ArduinoStub st(stream);
-      return exec(msgpack, ncalls, st, [&] { return st.position(); }, false, calls);
+      return exec(msgpack, ncalls, st, [&] { return st.position(); }, reader == 7, calls);
     }
 #endif
   }
@@ -315,7 +362,7 @@ inline std::vector<Answer> execReader(const std::string& stream, bool msgpack, i
 }
 
 inline void runReader(Ctx& C, const Plan& P, int reader, Memo& memo, uint64_t& calls) {
-  const bool skip = reader == 4;
+  const bool skip = isSkipReader(reader);
   const size_t n = P.docs.size();
   std::vector<Answer> A = execReader(P.stream, P.msgpack, reader, n + 1, calls);
   std::string outcome;
@@ -491,7 +538,10 @@ inline void run(Ctx& C) {
         for (size_t sf = 0; sf < msuf.size(); sf++) {
           Plan P;
           bool built = false;
+          bool anySkipOnly = false;
+          for (int k = 0; k < n; k++) anySkipOnly = anySkipOnly || M[size_t(di[size_t(k)])].skipOnly;
           for (int r = 0; r < kNumReaders; r++) {
+            if (anySkipOnly && !isSkipReader(r)) continue;
             const int ident[4] = {1, r, 0, di[0]};
             if (!C.takeByHash(fnv1a(ident, sizeof ident) >> 7)) continue;
             if (!built) {
@@ -524,9 +574,9 @@ done:
           "every separator in {\"\", SP, LF, CRLF, TAB SP SP} before / between / after (never \"\" between a number and the next document; "
           "a last number directly followed by a non-empty suffix is excluded) x suffix in {\"\", x, ], \", 1, NUL} x " +
           std::to_string(kNumReaders) + " readers {std::istream over a 1-byte-window streambuf, over a 3-byte-window streambuf, custom reader with "
-          "byte-wise readBytes, custom reader with block readBytes, byte-wise custom reader with a discard-all filter (code and consumption only), Arduino Stream stub}; MessagePack: every sequence of 1.." + std::to_string(maxDocs) +
+          "byte-wise readBytes, custom reader with block readBytes, byte-wise custom reader / 3-byte-window istream / Arduino Stream stub with a discard-all filter (code and consumption only), Arduino Stream stub}; MessagePack: every sequence of 1.." + std::to_string(maxDocs) +
           " objects over the " + std::to_string(M.size()) + " encodings (at most one non-minimal node, plus all-maximal) of {nil true 1 -1 300 1.5 \"a\" [1] {\"a\":1} bin ext [[]]} (and, in sequences of at most " + std::string(T ? "2" : "1") +
-          ", of {nested map, 40-byte string, 2^64-1, -2^63, float32 2.5, ext8, bin16}) "
+          ", of {nested map, 40-byte string, 2^64-1, -2^63, float32 2.5, ext8, bin16, maps with keys of 15 16 31 32 255 256 bytes, bin of 255 256 4095 4096 4097 bytes; through the discarding readers only: bin of 65535..65537 bytes inside a map, a 70000-element array}) "
           "x suffix in {\"\", c1, 91, d9, 00} x the same readers");
 }
 }  // namespace ix_stream
